@@ -313,13 +313,14 @@ fn record_stream(sink: &mut Sink, start: u32, segs: Segs, extra: &[&str]) {
 
 
 // ------------------------------------------------------------------ family 3: export of files with a lifecycle history
-/// the stages of an unfiltered, unsorted `adlt convert -o` run in this process: reader (iterator, indices from 0) ->
+/// the stages of an unfiltered, unsorted `adlt convert -o` run in this process: reader (iterator, indices from 0, over a
+/// LowMarkBufReader wired as in convert.rs: 512 KiB capacity, low mark DLT_MAX_STORAGE_MSG_SIZE + 4) ->
 /// lifecycle stage (every message goes through parse_lifecycles_buffered_from_stream) -> to_write per message delivered
 fn lib_export(data: &[u8]) -> Result<Vec<u8>, String> {
     let data = data.to_vec();
     catch_loc(move || {
-        let mut cur = Cursor::new(data);
-        let it = DltMessageIterator::new(0, &mut cur);
+        let rd = adlt::utils::LowMarkBufReader::new(Cursor::new(data), 512 * 1024, adlt::dlt::DLT_MAX_STORAGE_MSG_SIZE + 4);
+        let it = DltMessageIterator::new(0, rd);
         let (tx, rx) = std::sync::mpsc::channel();
         for m in it {
             tx.send(m).unwrap();
@@ -363,7 +364,8 @@ fn check_export(inp: &[u8], r0: &Read, a: &[u8], b: &[u8]) -> Result<(), (String
     let mut used = vec![false; want.len()];
     let order: Vec<i64> = got
         .iter()
-        .map(|g| match (0..want.len()).find(|k| !used[*k] && want[*k] == *g) {
+        .enumerate()
+        .map(|(i, g)| match (if i < want.len() && !used[i] && want[i] == *g { Some(i) } else { None }).or_else(|| (0..want.len()).find(|k| !used[*k] && want[*k] == *g)) {
             Some(k) => {
                 used[k] = true;
                 k as i64
@@ -405,13 +407,337 @@ fn o_file(l: &[u8]) -> O {
     O::T(vec![O::n(l.len() as u64), O::n(g::cksum(l))])
 }
 
-fn record_exports(sink: &mut Sink, cases: Vec<(Vec<MSpec>, Vec<String>)>) {
-    let inputs: Vec<Vec<u8>> = cases.iter().map(|c| export_input(&c.0).unwrap_or_default()).collect();
-    let bins = convert_exports(&inputs);
-    for ((specs, tags), bin) in cases.into_iter().zip(bins.into_iter()) {
+fn record_exports(sink: &mut Sink, cases: Vec<(Vec<MSpec>, Vec<String>)>, bigs: Vec<(u64, Runs, Vec<String>)>) {
+    let mut inputs: Vec<Vec<u8>> = cases.iter().map(|c| export_input(&c.0).unwrap_or_default()).collect();
+    inputs.extend(bigs.iter().map(|b| runs_bytes(b.0, &b.1).unwrap_or_default()));
+    let mut bins = convert_exports(&inputs);
+    let mut big_bins = bins.split_off(cases.len());
+    // the large files are spread over the shards
+    let stride = (cases.len() / bigs.len().max(1)).max(1);
+    let mut bigs = bigs.into_iter().zip(big_bins.drain(..));
+    for (k, ((specs, tags), bin)) in cases.into_iter().zip(bins.into_iter()).enumerate() {
         let t: Vec<&str> = tags.iter().map(|s| s.as_str()).collect();
         record_export(sink, specs, &t, Some(bin));
+        if k % stride == stride - 1 {
+            if let Some(((t0, runs, tags), bin)) = bigs.next() {
+                record_export_big(sink, t0, runs, tags, Some(bin));
+            }
+        }
     }
+    for ((t0, runs, tags), bin) in bigs {
+        record_export_big(sink, t0, runs, tags, Some(bin));
+    }
+}
+
+// ------------------------------------------------------------------ family 3, large files (70 KB .. 1.5 MB), described run-length
+/// (count, frame size in bytes, with timestamp): count consecutive messages of that size.  Message i (numbered through the
+/// file) of ECU1: received at t0 + i s, timestamp i s, mcnt = i mod 256, payload = LE32 of i (cut to the payload length)
+/// followed by 0x5a bytes.  Frame = 16 (storage header) + 4 (standard header) [+ 4 timestamp] + payload.
+type Runs = Vec<(u64, u64, bool)>;
+const LOW_MARK: u64 = 65551 + 4;
+const BUF_CAP: u64 = 512 * 1024;
+
+fn runs_total(runs: &Runs) -> u64 {
+    runs.iter().map(|r| r.0 * r.1).sum()
+}
+fn runs_bytes(t0: u64, runs: &Runs) -> Result<Vec<u8>, String> {
+    let runs = runs.clone();
+    catch_loc(move || {
+        let mut v: Vec<u8> = Vec::with_capacity(runs_total(&runs) as usize);
+        let mut i: u64 = 0;
+        for (c, size, ts) in runs.iter() {
+            let p = (*size - if *ts { 24 } else { 20 }) as usize;
+            for _ in 0..*c {
+                let mut payload = (i as u32).to_le_bytes().to_vec();
+                payload.resize(p.max(4), 0x5a);
+                payload.truncate(p);
+                let m = DltMessage {
+                    index: i as u32,
+                    reception_time_us: t0 + i * 1_000_000,
+                    ecu: DltChar4::from_buf(b"ECU1"),
+                    timestamp_dms: if *ts { (i * 10_000) as u32 } else { 0 },
+                    standard_header: DltStandardHeader { htyp: if *ts { 0x30 } else { 0x20 }, mcnt: (i & 0xff) as u8, len: 0 },
+                    extended_header: None,
+                    payload,
+                    payload_text: None,
+                    lifecycle: 0,
+                };
+                m.to_write(&mut v).expect("to_write into a Vec");
+                i += 1;
+            }
+        }
+        v
+    })
+}
+
+/// the refill points of LowMarkBufReader(512 KiB, 65555) under the iterator for this layout (source returns full reads):
+/// number of unconsumed bytes at every compaction -- for the distribution statistics only
+fn compaction_remainders(runs: &Runs) -> Vec<u64> {
+    let total = runs_total(runs);
+    let mut fed = 0u64; // bytes of the file read so far
+    let (mut pos, mut cap) = (0u64, 0u64);
+    let mut eof = false;
+    let mut rems = vec![];
+    let mut fill = |pos: &mut u64, cap: &mut u64, fed: &mut u64, eof: &mut bool, rems: &mut Vec<u64>| {
+        while !*eof && *cap - *pos < LOW_MARK {
+            if *pos >= 4096 {
+                let rem = *cap - *pos;
+                rems.push(rem);
+                let off = (4096 - rem % 4096) % 4096;
+                *cap = rem + off;
+                *pos = off;
+            }
+            let room = BUF_CAP - *cap;
+            let read = room.min(total - *fed);
+            if read == 0 {
+                *eof = true;
+            } else {
+                *cap += read;
+                *fed += read;
+                if read == room {
+                    break;
+                }
+            }
+        }
+    };
+    for (c, size, _) in runs.iter() {
+        for _ in 0..*c {
+            fill(&mut pos, &mut cap, &mut fed, &mut eof, &mut rems);
+            pos = (pos + size).min(cap);
+        }
+    }
+    fill(&mut pos, &mut cap, &mut fed, &mut eof, &mut rems);
+    rems
+}
+
+fn o_bigfile(l: &[u8]) -> O {
+    O::T(vec![O::n(l.len() as u64), O::L(g::cksum2(l))])
+}
+
+fn record_export_big(sink: &mut Sink, t0: u64, runs: Runs, extra: Vec<String>, bin: Option<BinExport>) {
+    let fail = |c: String, d: String| Verdict::Fail { clause: c, detail: d };
+    let mut verdict = Verdict::Ok;
+    let mut tags = extra;
+    tags.push("export".into());
+    tags.push("export_big".into());
+    let nmsgs: u64 = runs.iter().map(|r| r.0).sum();
+    let rems = compaction_remainders(&runs);
+    tags.push(format!("big_compactions{}", rems.len().min(4)));
+    if rems.iter().any(|r| r % 4096 == 0) {
+        tags.push("big_compaction_remainder_multiple_of_4096".into());
+    }
+    if rems.iter().any(|r| r % 4096 == 1 || r % 4096 == 4095) {
+        tags.push("big_compaction_remainder_next_to_multiple_of_4096".into());
+    }
+    let obs = match runs_bytes(t0, &runs) {
+        Err(e) => {
+            verdict = fail("write_ok".into(), e);
+            O::T(vec![O::L(7)])
+        }
+        Ok(inp) => {
+            tags.push(format!("big_kb{}", match inp.len() / 1024 { 0..=63 => "<64", 64..=127 => "<128", 128..=511 => "<512", 512..=1023 => "<1024", _ => ">=1024" }));
+            match read_all(0, &inp) {
+                Err(e) => {
+                    verdict = fail("input_readable".into(), e);
+                    O::T(vec![O::L(9), o_bigfile(&inp)])
+                }
+                Ok(r0) => {
+                    if r0.msgs.len() as u64 != nmsgs || r0.skipped != 0 || r0.rest != 0 {
+                        verdict = fail("input_is_the_messages_written".into(), format!("{} messages written, {} read, skipped {}", nmsgs, r0.msgs.len(), r0.skipped));
+                    }
+                    let lib = lib_export(&inp).and_then(|a| if a == inp { Ok((a.clone(), a)) } else { lib_export(&a).map(|b| (a, b)) });
+                    let bin: Option<Result<(Vec<u8>, Vec<u8>), String>> = match bin.unwrap_or_else(|| convert_export(&inp, true)) {
+                        None => {
+                            tags.push("e2e_skipped_no_binary".into());
+                            None
+                        }
+                        Some(r) => {
+                            tags.push(match &r {
+                                Ok((_, _, true)) => "e2e_convert_twice".into(),
+                                Ok((_, _, false)) => "e2e_convert_once_export_identical_to_input".into(),
+                                Err(_) => "e2e_convert_failed".into(),
+                            });
+                            Some(r.map(|(a, b, _)| (a, b)))
+                        }
+                    };
+                    if matches!(verdict, Verdict::Ok) {
+                        match &bin {
+                            Some(Err(e)) => verdict = fail("convert_o_runs".into(), e.clone()),
+                            Some(Ok((a, b))) => {
+                                if a.len() != inp.len() {
+                                    verdict = fail("convert_o_sizes_equal".into(), format!("input {} bytes, export {} bytes", inp.len(), a.len()));
+                                }
+                                if let Err((c, d)) = check_export(&inp, &r0, a, b) {
+                                    verdict = fail(format!("convert_o_{}", c), d.chars().take(600).collect());
+                                }
+                            }
+                            None => {}
+                        }
+                    }
+                    if matches!(verdict, Verdict::Ok) {
+                        match &lib {
+                            Err(e) => verdict = fail("pipeline_stages_run".into(), e.clone()),
+                            Ok((a, b)) => {
+                                if let Err((c, d)) = check_export(&inp, &r0, a, b) {
+                                    verdict = fail(format!("pipeline_stages_{}", c), d.chars().take(600).collect());
+                                }
+                            }
+                        }
+                    }
+                    let files: Result<(Vec<u8>, Vec<u8>), String> = match bin {
+                        Some(r) => r,
+                        None => lib,
+                    };
+                    match files {
+                        Err(_) => O::T(vec![O::L(9), o_bigfile(&inp)]),
+                        Ok((a, b)) => {
+                            let order = match read_all(0, &a) {
+                                Ok(ra) => O::T(vec![O::n(ra.msgs.len() as u64), O::b(ra.msgs.iter().enumerate().all(|(i, m)| m.mcnt() == (i & 0xff) as u8)), O::n(ra.rest as u64)]),
+                                Err(_) => O::L(1),
+                            };
+                            O::T(vec![O::L(8), o_bigfile(&inp), o_bigfile(&a), order, O::b(a == b)])
+                        }
+                    }
+                }
+            }
+        }
+    };
+    let nontrivial = runs_total(&runs) >= LOW_MARK + 4096;
+    let input_coq = format!("(CExportRuns {} {})", t0, clist(&runs.iter().map(|r| format!("({}, {}, {})", r.0, r.1, cbool(r.2))).collect::<Vec<_>>()));
+    let id = sink.next_id();
+    sink.push(Case { id, key: input_coq.clone(), input_coq, input_json: json!({"kind": "export_runs", "t0": t0, "runs": runs.iter().map(|r| json!([r.0, r.1, r.2])).collect::<Vec<_>>()}), obs, verdict, classes: vec![], tags, nontrivial });
+}
+
+fn push_run(runs: &mut Runs, c: u64, size: u64) {
+    if c == 0 {
+        return;
+    }
+    let ts = size >= 24;
+    if let Some(l) = runs.last_mut() {
+        if l.1 == size && l.2 == ts {
+            l.0 += c;
+            return;
+        }
+    }
+    runs.push((c, size, ts));
+}
+/// messages of mixed sizes (blocks of equal messages and single ones) adding up to exactly `total` bytes (0 or >= 20)
+fn fill_blocks(rng: &mut Rng, runs: &mut Runs, total: u64, max_size: u64) {
+    let mut rem = total;
+    while rem > 0 {
+        assert!(rem >= 20);
+        let mut s = match rng.below(10) {
+            0 => rng.range(20, 23),
+            1 => *rng.pick(&[32u64, 64, 128, 256, 512, 1024, 2048, 4096]),
+            2 => rng.range(300, 5000),
+            3 => rng.range(24, max_size.max(24)),
+            _ => rng.range(24, 300),
+        }
+        .min(max_size.max(20))
+        .min(65551);
+        let mut c = if rng.chance(1, 2) { 1 } else { rng.range(2, 400) };
+        if s + 20 > rem {
+            // the last message takes what is left (at most one maximum-sized frame)
+            s = rem;
+            c = 1;
+            if s > 65551 {
+                s = rem - 40;
+                if s > 65551 {
+                    s = 65551;
+                }
+            }
+        } else {
+            c = c.min((rem - 20) / s).max(1);
+            if rem - c * s != 0 && rem - c * s < 20 {
+                c -= 1;
+                if c == 0 {
+                    s = rem;
+                    c = 1;
+                }
+            }
+        }
+        push_run(runs, c, s);
+        rem -= c * s;
+    }
+}
+
+/// layouts that sweep the refill arithmetic of the reader `adlt convert` reads files through
+fn gen_big_layouts(rng: &mut Rng, scale: u64) -> Vec<(u64, Runs, Vec<String>)> {
+    let mut out: Vec<(u64, Runs, Vec<String>)> = vec![];
+    let t = |l: &[&str]| -> Vec<String> { l.iter().map(|s| s.to_string()).collect() };
+    let t0 = |rng: &mut Rng| lcgen::RHO + rng.below(2_000_000) * 1_000_000 + rng.below(1_000_000);
+    let pow2 = [32u64, 64, 128, 256, 512, 1024, 2048, 4096];
+    for _ in 0..scale {
+        // A: uniform sizes: two powers of two, two neighbours, one other size
+        let mut sizes: Vec<(u64, &str)> = vec![];
+        let i = rng.below(pow2.len() as u64) as usize;
+        let j = (i + 1 + rng.below(pow2.len() as u64 - 1) as usize) % pow2.len();
+        sizes.push((pow2[i], "big_uniform_pow2"));
+        sizes.push((pow2[j], "big_uniform_pow2"));
+        sizes.push((*rng.pick(&pow2) + 1, "big_uniform_pow2_neighbour"));
+        sizes.push((*rng.pick(&pow2) - 1, "big_uniform_pow2_neighbour"));
+        sizes.push((*rng.pick(&[20u64, 21, 24, 40, 48, 100, 1000, 3000, 8192, 16384, 20000]), "big_uniform_other"));
+        for (s, tag) in sizes {
+            let total = rng.range(LOW_MARK + 4096 + 1, 200_000);
+            let mut runs = vec![];
+            push_run(&mut runs, (total + s - 1) / s, s);
+            out.push((t0(rng), runs, t(&[tag])));
+        }
+        // B: a message boundary exactly k*4096 (+-1) bytes before the end of the first buffer fill (= the end of the file)
+        let mut ks: Vec<u64> = (1..=16).collect();
+        for d in [0i64, 0, 1, -1] {
+            let k = ks.remove(rng.below(ks.len() as u64) as usize);
+            let tail = (k * 4096) as i64 + d;
+            let tail = tail as u64;
+            let m = (LOW_MARK - tail.min(LOW_MARK) + rng.below(200)).clamp(24, 65551);
+            let mut runs = vec![];
+            let tot = rng.range(4096, 60_000);
+            fill_blocks(rng, &mut runs, tot, 2000);
+            push_run(&mut runs, 1, m);
+            fill_blocks(rng, &mut runs, tail, 3000);
+            out.push((t0(rng), runs, vec!["big_tail_first_fill".to_string(), format!("big_tail_delta{}", d)]));
+        }
+        // C: the same before the end of the first 512 KiB (second fill follows), file of 0.6 .. 1.4 MB
+        for d in [0i64, if rng.chance(1, 2) { 1 } else { -1 }] {
+            let k = rng.range(1, 16);
+            let tail = ((k * 4096) as i64 + d) as u64;
+            let m = (LOW_MARK - tail.min(LOW_MARK) + rng.below(200)).clamp(24, 65551);
+            let b = BUF_CAP - tail;
+            let mut runs = vec![];
+            fill_blocks(rng, &mut runs, b - m, 1500);
+            push_run(&mut runs, 1, m);
+            let rest = tail + if d == 0 { rng.range(40_000, 150_000) } else { rng.range(100_000, 850_000) };
+            fill_blocks(rng, &mut runs, rest, 1500);
+            out.push((t0(rng), runs, vec!["big_tail_second_fill".to_string(), format!("big_tail_delta{}", d)]));
+        }
+        // D: files of exactly the low mark +- a few bytes, and one cache line more
+        for base in [LOW_MARK, LOW_MARK, LOW_MARK + 4096] {
+            let total = (base as i64 + rng.range(0, 12) as i64 - 6) as u64;
+            let mut runs = vec![];
+            fill_blocks(rng, &mut runs, total, 2000);
+            out.push((t0(rng), runs, t(&["big_around_low_mark"])));
+        }
+        // E: a few near-maximum messages between small ones
+        {
+            let mut runs = vec![];
+            for _ in 0..rng.range(3, 6) {
+                let tot = rng.range(20, 9000);
+                fill_blocks(rng, &mut runs, tot, 500);
+                push_run(&mut runs, rng.range(1, 2), 65551 - rng.below(3) * rng.below(40));
+            }
+            let tot = rng.range(20, 9000);
+            fill_blocks(rng, &mut runs, tot, 500);
+            out.push((t0(rng), runs, t(&["big_near_max_messages"])));
+        }
+        // F: mixed sizes
+        for _ in 0..2 {
+            let mut runs = vec![];
+            let tot = rng.range(70_000, 400_000);
+            fill_blocks(rng, &mut runs, tot, 6000);
+            out.push((t0(rng), runs, t(&["big_mixed"])));
+        }
+    }
+    out
 }
 
 fn record_export(sink: &mut Sink, specs: Vec<MSpec>, extra: &[&str], bin: Option<BinExport>) {
@@ -802,7 +1128,10 @@ fn main() {
     if let Some(p) = &a.replay {
         let v = read_replay(p);
         let c = &v["case"];
-        if c["kind"] == "export" {
+        if c["kind"] == "export_runs" {
+            let runs: Runs = c["runs"].as_array().unwrap().iter().map(|r| (r[0].as_u64().unwrap(), r[1].as_u64().unwrap(), r[2].as_bool().unwrap())).collect();
+            record_export_big(&mut sink, c["t0"].as_u64().unwrap(), runs, vec!["replay".to_string()], None);
+        } else if c["kind"] == "export" {
             record_export(&mut sink, c["specs"].as_array().unwrap().iter().map(MSpec::from_json).collect(), &["replay"], None);
         } else if c["kind"] == "stream" {
             record_stream(&mut sink, c["start"].as_u64().unwrap() as u32, serde_json::from_value(c["segs"].clone()).unwrap(), &["replay"]);
@@ -875,7 +1204,15 @@ fn main() {
     }
     let ne = a.count.unwrap_or(if quick { 260 } else if a.tier == "search" { 900 } else { 3000 });
     export_cases(&mut xcases, &mut xrng, ne, if quick { 60 } else { 80 });
-    record_exports(&mut sink, xcases);
+    let mut bigs = gen_big_layouts(&mut xrng, if quick || a.tier == "search" { 1 } else { 4 });
+    if a.tier != "search" {
+        // corpus: 1100 messages of 64 bytes (70 400 bytes: 65 536 unconsumed bytes at the only compaction)
+        bigs.insert(0, (lcgen::RHO + 123, vec![(1100, 64, true)], vec!["corpus".to_string(), "big_uniform_pow2".to_string()]));
+    }
+    if a.count == Some(0) {
+        bigs.clear();
+    }
+    record_exports(&mut sink, xcases, bigs);
     let n = a.count.unwrap_or(if quick { 300 } else if a.tier == "search" { 1200 } else { 5000 });
     for k in 0..n {
         match k % 4 {
